@@ -17,7 +17,8 @@ DEATH_IS_VIOLATION = True
 FLOORS = {"nontrivial": 10000, "observed": {"families": 300, "crash_corpus.texts": 10000}}
 RULE = ("(a) crash freedom: damaged programs (G-damage at every token / sampled bytes), random "
         "Unicode text, token soup over the Nix vocabulary, valid G-nix programs, long files, up "
-        "to 64 KiB and nesting 64: parse+rebuild must return or raise ValueError / NixSyntaxError, "
+        "to 64 KiB and nesting 64, long realistic documents, and the whole construct x gap x trivia "
+        "grid placed below line 300 and right of column 300: parse+rebuild must return or raise ValueError / NixSyntaxError, "
         "nothing else, and the worker must survive (write-ahead log attributes a death to its "
         "input); (b) complexity: for every depth-parameterised family (hand-written: curried lambdas, formals "
         "lambdas, nested sets / lists / parentheses / let / with / assert / if / calls / selects, "
@@ -190,6 +191,11 @@ def unicode_text(rng, n):
 
 def plan(tier, seed):
     specs = [{"kind": "families", "part": p, "parts": 32, "max_depth": 32} for p in range(32)]
+    # every construct x gap x trivia class again, but placed below line 300 and right of column
+    # 300 (row / column numbers beyond 256 in every code path that reads tree-sitter points)
+    bparts = 6 if tier == "quick" else 16
+    for p_ in range(bparts):
+        specs.append({"kind": "below-256", "part": p_, "parts": bparts, "stride": 6 if tier == "quick" else 1})
     n = 10 if tier == "quick" else 58
     for i in range(n):
         specs.append({"kind": "corpus", "seed": seed * 1811 + i * 67867967 + 31,
@@ -260,6 +266,45 @@ def run_shard(spec):
         res["nontrivial"] = sorted(nontriv)
         return res
 
+    if spec["kind"] == "below-256":
+        from nmverif.engines import rt
+        obs["crash_corpus"] = {"texts": 0, "structural": 0, "pass_through": 0, "sources": {}}
+        obs["exceptions"] = {}
+        pad = "".join(f"  p{i} = {i};\n" for i in range(300))
+        n = 0
+        for case in rt.grid_items(spec["part"], spec["parts"]):
+            n += 1
+            if case.text is None or n % spec["stride"]:
+                continue
+            body = case.text
+            text = "{\n" + pad + " " * 300 + "k = (" + body + "\n  );\n}\n"
+            if cst.has_error(text):
+                continue
+            if quarantined(text):
+                B.record(res, {"effect": "interpreter-death", "source": "below-256"}, {"text": text[-400:]},
+                         "input killed the interpreter in an earlier attempt")
+                continue
+            wal_text(text)
+            res["evaluations"] += 1
+            obs["crash_corpus"]["texts"] += 1
+            B.bump(obs["crash_corpus"]["sources"], "below-256")
+            try:
+                doc = parse(text)
+                doc.rebuild()
+                if doc.contains_error:
+                    obs["crash_corpus"]["pass_through"] += 1
+                else:
+                    obs["crash_corpus"]["structural"] += 1
+                    nontriv.add(B.h64(body))
+            except (ValueError, NixSyntaxError) as exc:
+                B.bump(obs["exceptions"], type(exc).__name__)
+            except Exception as exc:  # noqa: BLE001
+                B.bump(obs["exceptions"], type(exc).__name__)
+                B.record(res, {"effect": "internal-exception", "exc": type(exc).__name__, "source": "below-256",
+                               "where": _where(exc)}, {"text": text[-600:]}, f"{type(exc).__name__}: {str(exc)[:200]}")
+        res["nontrivial"] = sorted(nontriv)
+        return res
+
     # ---- crash-freedom corpus
     rng = random.Random(spec["seed"])
     obs["crash_corpus"] = {"texts": 0, "structural": 0, "pass_through": 0, "sources": {}}
@@ -322,8 +367,18 @@ def run_shard(spec):
             feed(unicode_text(rng, rng.choice([1, 5, 50, 400])), "unicode")
         else:
             # larger texts (up to 64 KiB)
-            big = "{\n" + "".join(f"  k{j} = {soup(rng, 3)!r};\n" for j in range(rng.choice([200, 1500]))) + "}\n"
-            feed(big[:65536], "large")
+            if rng.random() < 0.5:
+                big = "{\n" + "".join(f"  k{j} = {soup(rng, 3)!r};\n" for j in range(rng.choice([200, 1500]))) + "}\n"
+                feed(big[:65536], "large")
+            else:
+                # long realistic files: hundreds of lines with every binding form, inherits and
+                # comments well past line 256 (row / column numbers beyond the small-int cache)
+                g = canon.DocGen(rng, max_entries=rng.choice([120, 300]), depth=3, comment_rate=rng.choice([1.0, 4.0]))
+                big = canon.render(g.doc())
+                if rng.random() < 0.5:
+                    big = big.replace(";\n", ";" + " " * 270 + "# far right\n", 3)
+                feed(big[:200000], "large-document")
+                feed(big[:200000], "large-document")   # twice: damage to the heap shows later
     cov.stop()
     obs["functions_entered_count"] = len(cov.entered)
     res["nontrivial"] = sorted(nontriv)
